@@ -114,14 +114,42 @@ func goArg(kind string, e model.Elem, variant int) interface{} {
 		return v
 	case kind == model.F4:
 		f := math.Float64frombits(e.F)
+		if v, ok := integralGoValue(f, variant); ok {
+			return v
+		}
 		if variant%2 == 1 && float64(float32(f)) == f {
 			return float32(f)
 		}
 		return f
 	case kind == model.F8:
-		return math.Float64frombits(e.F)
+		f := math.Float64frombits(e.F)
+		if v, ok := integralGoValue(f, variant); ok {
+			return v
+		}
+		return f
 	}
 	panic("goArg: kind " + kind)
+}
+
+// integralGoValue hands a whole number to a float item as a Go integer (the factories take every integer type):
+// the widest type that holds it exactly - uint64 from 2^63 on - for every third variant.
+func integralGoValue(f float64, variant int) (interface{}, bool) {
+	if variant%3 != 2 || f != math.Trunc(f) || (f == 0 && math.Signbit(f)) {
+		return nil, false
+	}
+	switch {
+	case f >= -9223372036854775808 && f < 9223372036854775808:
+		if variant%2 == 0 && f >= math.MinInt32 && f <= math.MaxInt32 {
+			return int32(f), true
+		}
+		return int64(f), true
+	case f >= 9223372036854775808 && f < 18446744073709551616:
+		if variant%2 == 0 {
+			return uint(f), true
+		}
+		return uint64(f), true
+	}
+	return nil, false
 }
 
 // buildItem constructs the real item for a model node through the public
